@@ -12,7 +12,9 @@ Local Open Scope list_scope.
    database/sql, sqlx's breaker and applications compare against *)
 Inductive fkind := KBadConn | KConnDone | KTxDone | KCanceled | KDeadline.
    (* driver.ErrBadConn, sql.ErrConnDone, sql.ErrTxDone, context.Canceled, context.DeadlineExceeded *)
-Inductive fault := FNone | FGen | FKind (k : fkind).
+Inductive fault := FNone | FGen | FKind (k : fkind)
+  | FCtx (k : fkind).   (* statements only: database/sql refuses it because the statement's OWN ctx is done
+                           (k = KCanceled / KDeadline): ctx.Err() comes back, the driver is not called *)
 Definition fails (x : fault) : bool := match x with FNone => false | _ => true end.
 
 (* errors that can come out of Transact; the driver's own errors are atoms per call site, the
@@ -29,7 +31,7 @@ Inductive err :=
 | EOther.                                 (* anything else (never produced by the model) *)
 
 (* the error value a call site hands back for fault x *)
-Definition err_at (atom : err) (x : fault) : err := match x with FKind k => EKind k | _ => atom end.
+Definition err_at (atom : err) (x : fault) : err := match x with FKind k | FCtx k => EKind k | _ => atom end.
 
 (* driver faults at Begin (n_begin = for how many consecutive attempts), Commit, Rollback *)
 Record faults := mkfaults { x_begin : fault; n_begin : nat; x_commit : fault; x_rollback : fault }.
@@ -95,6 +97,7 @@ Section WithSwitches.
      a transaction; Tx.ExecContext / Tx.QueryContext are not retried *)
   Definition stmt_calls (i : nat) (s : stmt) : list call :=
     match s_op s, s_fault s with
+    | _, FCtx _ => []                          (* Tx.grabConn / Tx.PrepareContext: ctx.Err() before any driver call *)
     | SPrepExec, FKind KBadConn => repeat (Exec i false) 3
     | _, _ => [Exec i (negb (s_fail s))]
     end.
@@ -168,6 +171,29 @@ Section WithSwitches.
     Definition cached_transact_ctx_runs (f : faults) : nat := transact_ctx_runs f.
   End Breaker.
 End WithSwitches.
+
+(* ---- the context handed to TransactCtx ----
+   commonConn.TransactCtx(ctx, fn), conn.go:263-277: ctx goes to startSpan and, through transact /
+   transactOnConn, to fn(ctx, tx) - nowhere else: begin() is db.Begin() (tx.go:124-133, no ctx), Commit and
+   Rollback take none. So the only thing a finished ctx can change is a statement the BODY issues with
+   that ctx (XxxCtx methods, `bound`); the plain Session methods use context.Background(). *)
+Inductive ctxstate :=
+| CLive                          (* never done during the call *)
+| CDoneAfterBody (k : fkind)     (* cancelled / expired right after the body's last statement *)
+| CDoneBefore (k : fkind).       (* already cancelled / expired when TransactCtx is called *)
+
+Definition stmt_under_ctx (cx : ctxstate) (bound : bool) (s : stmt) : stmt :=
+  match cx, bound with
+  | CDoneBefore k, true => mkstmt (s_op s) (FCtx k) (s_react s)
+  | _, _ => s
+  end.
+Definition body_under_ctx (cx : ctxstate) (bound : bool) (b : body) : body :=
+  mkbody (map (stmt_under_ctx cx bound) (b_stmts b)) (b_final b).
+
+Definition transact_ctx_with (sw : switches) (passed : bool) (cx : ctxstate) (bound : bool) (f : faults) (b : body)
+  : option err * list call := transact_ctx sw passed f (body_under_ctx cx bound b).
+Definition cached_transact_ctx_with (sw : switches) (passed : bool) (cx : ctxstate) (bound : bool) (f : faults) (b : body)
+  : option err * list call := cached_transact_ctx sw passed f (body_under_ctx cx bound b).
 
 (* commonConn.acceptable, conn.go:279-286, errors as small integers (see GenEnv.v):
    0 = nil, 1 = sql.ErrNoRows, 2 = sql.ErrTxDone, 3 = context.Canceled *)
